@@ -100,7 +100,7 @@ def scan(ctx):
     hits, stopped = X.watch_calls(tree, path, "setup_engine", ["str_to_class"])
     short = "cfg.model.model_name.split('.')[0]"
     mod = X.show(X.parse_expr("f\"direct.nn.{%s.lower()}.{%s.lower()}_engine\"" % (short, short)))
-    names = {X.show(X.parse_expr("cfg.model.engine_name")), X.show(X.parse_expr("cfg.model.model_name.split('.')[-1] + 'Engine'")), X.show(X.parse_expr("cfg.model.engine_name if cfg.model.engine_name else cfg.model.model_name.split('.')[-1] + 'Engine'"))}
+    names = {X.show(X.parse_expr("cfg.model.engine_name")), X.show(X.parse_expr("cfg.model.model_name.split('.')[-1] + 'Engine'")), X.show(X.parse_expr("cfg.model.engine_name if cfg.model.engine_name else cfg.model.model_name.split('.')[-1] + 'Engine'")), X.show(X.parse_expr("cfg.model.engine_name or cfg.model.model_name.split('.')[-1] + 'Engine'"))}
     seen_names = set()
     for conds, args, kw in hits["str_to_class"]:
         if len(args) != 2 or kw or X.show(args[0]) != mod or X.show(args[1]) not in names:
@@ -108,7 +108,7 @@ def scan(ctx):
         given = [pol for c, pol in conds if X.show(c) == "cfg.model.engine_name"]
         if X.show(args[1]) == "cfg.model.engine_name" and given != [True]:
             raise Untranslatable("setup_engine: the configured engine name is used without being set", None, path)
-        if X.show(args[1]).endswith("'Engine')") and not X.show(args[1]).startswith("(cfg.model.engine_name if") and given != [False]:
+        if X.show(args[1]).endswith("'Engine')") and not X.show(args[1]).startswith("(cfg.model.engine_name if") and not X.show(args[1]).startswith("(cfg.model.engine_name or") and given != [False]:
             raise Untranslatable("setup_engine: the default engine name is used although one is configured", None, path)
         seen_names.add(X.show(args[1]))
     if not hits["str_to_class"]:
